@@ -867,6 +867,9 @@ MUTANTS = [
     M('union-points-written-for-unblocked-only', U,
       "        for i, points in enumerate(self.points_bounds):\n            group.create_dataset('points_bound_{}'.format(i), data=points)",
       "        for i, points in enumerate(self.points_bounds):\n            if not self.block[i]:\n                group.create_dataset('points_bound_{}'.format(i), data=points)", 'C09'),
+    M('refused-split-not-blocked', U, "            self.block[index] = True\n            return self.split(allow_overlap=allow_overlap)",
+      "            return self.split(allow_overlap=allow_overlap)", 'C13'),
+    M('overlap-refusal-inverted', U, "        if not allow_overlap and ellipsoids_overlap(", "        if allow_overlap and ellipsoids_overlap(", 'C13'),
     M('job-returns-the-caller', N,
       "        bound.sample(n_points=n_points, return_points=False)\n        return bound\n",
       "        bound.sample(n_points=n_points, return_points=False)\n        return self\n", 'C08 C03'),
@@ -932,6 +935,9 @@ BENIGN = [
     M('emulator-restore-unpacked', NN,
       "                if key.rsplit('_', 1)[1] == '{}'.format(i):\n                    setattr(network, key.rsplit('_', 1)[0], group.attrs[key])",
       "                name, index = key.rsplit('_', 1)\n                if index == '{}'.format(i):\n                    setattr(network, name, group.attrs[key])", ALL),
+    M('overlap-refusal-operands-swapped', U,
+      "        if not allow_overlap and ellipsoids_overlap(\n                self.bounds[:index] + self.bounds[index+1:] + new_bounds):",
+      "        if ellipsoids_overlap(\n                self.bounds[:index] + self.bounds[index+1:] + new_bounds) and not allow_overlap:", ALL),
     M('job-copy-renamed', N,
       "        bound = copy.deepcopy(self)\n        bound.reset(rng=rng)\n"
       "        bound.sample(n_points=n_points, return_points=False)\n        return bound\n",
